@@ -14,6 +14,8 @@ mod c12;
 mod c12x;
 #[path = "conv/c19.rs"]
 mod c19;
+#[path = "conv/split.rs"]
+mod split;
 
 fn main() {
     mcx::engine::main(|prop, tier| match prop {
